@@ -484,7 +484,7 @@ Inductive eof_mode := EofContinue (* exportStreamsValue, Tail *) | EofBreak (* m
 Definition step_entry (h : hdr_test) (m : eof_mode) (key : string) (value : entry -> list token)
            (s : lstate) (e : entry) : list token * flow :=
   match e_err e with
-  | EFail => ([TArrE; TObjE; TObjE], Return)     (* onErr: sends "]}}" and returns *)
+  | EFail => ([], Return)                        (* onErr (see writer) and return *)
   | EEOF => ([], match m with EofContinue => Go s | EofBreak => BreakBatch s end)
   | ENone => let (o, s') := emit_entry h key value s e in (o, Go s')
   end.
@@ -513,22 +513,24 @@ Fixpoint run_batches (h : hdr_test) (m : eof_mode) (key : string) (value : entry
     end
   end.
 
-Definition writer (h : hdr_test) (m : eof_mode) (key : string) (value : entry -> list token)
+(* buffered: Tail builds the whole frame in one buffer and sends it at the end, so nothing of it is
+   sent when an error entry makes the goroutine return; the other two send chunk by chunk *)
+Definition writer (h : hdr_test) (m : eof_mode) (buffered : bool) (key : string) (value : entry -> list token)
            (pre post : list token) (bs : list (list entry)) : list token :=
   match run_batches h m key value lstate0 bs with
   | (o, Some s) => pre ++ o ++ (if li s then wArrayEnd ++ wObjectEnd else []) ++ post
-  | (o, None) => pre ++ o                        (* returned from onErr: nothing more is sent *)
+  | (o, None) => (if buffered then [] else pre ++ o) ++ [TArrE; TObjE; TObjE]   (* onErr sends "]}}" *)
   end.
 
 (* QueryRangeService.exportStreamsValue *)
 Definition enc_streams (h : hdr_test) (bs : list (list entry)) : list token :=
-  writer h EofContinue "stream" log_value (open_response "streams") close_response bs.
+  writer h EofContinue false "stream" log_value (open_response "streams") close_response bs.
 (* the matrix branch of QueryRangeService.QueryRange *)
 Definition enc_matrix (bs : list (list entry)) : list token :=
-  writer HdrFirstOrFp EofBreak "metric" matrix_value (open_response "matrix") close_response bs.
+  writer HdrFirstOrFp EofBreak false "metric" matrix_value (open_response "matrix") close_response bs.
 (* one frame of QueryRangeService.Tail *)
 Definition enc_tail (h : hdr_test) (bs : list (list entry)) : list token :=
-  writer h EofContinue "stream" log_value
+  writer h EofContinue true "stream" log_value
          (wObjectStart ++ wObjectField "streams" ++ wArrayStart) (wArrayEnd ++ wObjectEnd) bs.
 
 (* ------------------------------------------------------------------------------------------ *)
@@ -584,6 +586,53 @@ Definition series_doc (key : string) (vd : entry -> json) (g : entry * list entr
   JObj [(key, labels_doc (e_lbls (fst g))); ("values", JArr (map vd (fst g :: snd g)))].
 Definition response_doc (rtype : string) (result : list json) : json :=
   JObj [("status", JStr "success"); ("data", JObj [("resultType", JStr rtype); ("result", JArr result)])].
+
+(* ------------------------------------------------------------------------------------------ *)
+(* Prometheus responses (promQueryRangeController.go writeResponse -> writeMatrix / writeVector /
+   writeScalar) and PromError. Label sets are slices here (labels.Labels), so their order is fixed.
+   ps_t is the text of WriteFloat64(float64(T)/1000) (scalar: fmt %f), ps_v the text of
+   FormatFloat(V,'f',-1,64) (scalar: fmt %f). *)
+Record psample := { ps_t : string; ps_v : string }.
+Record pseries := { pr_lbls : list (string * string); pr_pts : list psample }.
+
+(* for i, x := range xs { if i > 0 { write "," }; item x } *)
+Fixpoint sep_loop {A : Type} (item : A -> list token) (xs : list A) (i : bool) : list token :=
+  match xs with
+  | [] => []
+  | x :: r => (if i then [TComma] else []) ++ item x ++ sep_loop item r true
+  end.
+Definition prom_point (p : psample) : list token :=
+  wArrayStart ++ wRaw (ps_t p) ++ wMore ++ wString (ps_v p) ++ wArrayEnd.
+Definition prom_series (s : pseries) : list token :=
+  wObjectStart ++ wObjectField "metric" ++ write_map (pr_lbls s) ++ wMore ++
+  wObjectField "values" ++ wArrayStart ++ sep_loop prom_point (pr_pts s) false ++ wArrayEnd ++ wObjectEnd.
+(* a vector sample: the series carries exactly its one point *)
+Definition prom_sample (s : pseries) : list token :=
+  wObjectStart ++ wObjectField "metric" ++ write_map (pr_lbls s) ++ wMore ++
+  wObjectField "value" ++ match pr_pts s with p :: _ => prom_point p | [] => wArrayStart ++ wArrayEnd end ++ wObjectEnd.
+Definition enc_prom_matrix (ss : list pseries) : list token :=
+  open_response "matrix" ++ sep_loop prom_series ss false ++ close_response.
+Definition enc_prom_vector (ss : list pseries) : list token :=
+  open_response "vector" ++ sep_loop prom_sample ss false ++ close_response.
+Definition enc_prom_scalar (p : psample) : list token :=
+  open_response "scalar" ++ [TRaw (ps_t p); TComma; TWs " "; TStr (ps_v p)] ++ close_response.
+Definition enc_prom_error (msg : string) : list token :=
+  wObjectStart ++ wObjectField "status" ++ wString "error" ++ wMore ++ wObjectField "errorType" ++ wString "error" ++
+  wMore ++ wObjectField "error" ++ wString msg ++ wObjectEnd.
+
+Definition point_doc (p : psample) : json := JArr [JNum (ps_t p); JStr (ps_v p)].
+Definition prom_series_doc (s : pseries) : json :=
+  JObj [("metric", labels_doc (pr_lbls s)); ("values", JArr (map point_doc (pr_pts s)))].
+Definition prom_sample_doc (s : pseries) : json :=
+  JObj [("metric", labels_doc (pr_lbls s)); ("value", match pr_pts s with p :: _ => point_doc p | [] => JArr [] end)].
+Definition doc_prom_matrix (ss : list pseries) : json := response_doc "matrix" (map prom_series_doc ss).
+Definition doc_prom_vector (ss : list pseries) : json := response_doc "vector" (map prom_sample_doc ss).
+Definition doc_prom_scalar (p : psample) : json := response_doc "scalar" [JNum (ps_t p); JStr (ps_v p)].
+Definition doc_prom_error (msg : string) : json :=
+  JObj [("status", JStr "error"); ("errorType", JStr "error"); ("error", JStr msg)].
+Definition series_nums_ok (ss : list pseries) : bool :=
+  forallb (fun s => forallb (fun p => num_ok (ps_t p)) (pr_pts s)) ss.
+
 
 Definition is_live (e : entry) : bool := match e_err e with ENone => true | _ => false end.
 Definition no_fail (e : entry) : bool := match e_err e with EFail => false | _ => true end.
@@ -740,11 +789,13 @@ Definition dec_Z (s : string) : Z :=
   end.
 Definition dec_nat (s : string) : nat := N.to_nat (dec_N s 0).
 
-Inductive enc_kind := KStreams | KMatrix | KTail | KVector | KTags | KTagValues | KLabels | KSeries.
+Inductive enc_kind := KStreams | KMatrix | KTail | KVector | KTags | KTagValues | KLabels | KSeries
+                  | KPromMatrix | KPromVector | KPromScalar | KPromError.
 Record case := {
   c_id : Z;
   c_kind : enc_kind;
   c_batches : list (list entry);   (* labels of each entry in the order observed in the output (see harness) *)
+  c_blbls : list (list (string * string));  (* Prometheus kinds: one label set per batch (= series) *)
   c_items : list string;           (* list endpoints: tag names, label values, stored label documents *)
   c_order : list N;                (* vector: fingerprints in the order of the result array *)
   c_out : string                   (* concatenated chunks the implementation sent *)
@@ -752,6 +803,15 @@ Record case := {
 
 (* the header test of the code under /repo today (after fix #23) *)
 Definition cur_hdr : hdr_test := HdrFirstOrFp.
+
+(* Prometheus kinds travel as batches: batch = series, entry = point (e_tsf, e_val the two texts) *)
+Definition case_series (c : case) : list pseries :=
+  map (fun bl => {| pr_lbls := snd bl; pr_pts := map (fun e => {| ps_t := e_tsf e; ps_v := e_val e |}) (fst bl) |})
+      (combine (c_batches c) (c_blbls c)).
+Definition case_scalar (c : case) : psample :=
+  match case_series c with s :: _ => match pr_pts s with p :: _ => p | [] => {| ps_t := ""; ps_v := "" |} end
+                      | [] => {| ps_t := ""; ps_v := "" |} end.
+Definition case_msg (c : case) : string := match c_items c with m :: _ => m | [] => "" end.
 
 Definition model_bytes (c : case) : string :=
   match c_kind c with
@@ -763,6 +823,10 @@ Definition model_bytes (c : case) : string :=
   | KTagValues => render (enc_tempo_values (c_items c))
   | KLabels => render (enc_labels (c_items c))
   | KSeries => enc_series_bytes (c_items c)
+  | KPromMatrix => render (enc_prom_matrix (case_series c))
+  | KPromVector => render (enc_prom_vector (case_series c))
+  | KPromScalar => render (enc_prom_scalar (case_scalar c))
+  | KPromError => render (enc_prom_error (case_msg c))
   end.
 Fixpoint all_some {A} (l : list (option A)) : option (list A) :=
   match l with
@@ -786,6 +850,10 @@ Definition spec_doc (c : case) : option json :=
                | Some ds => Some (JObj [("status", JStr "success"); ("data", JArr ds)])
                | None => None
                end
+  | KPromMatrix => Some (doc_prom_matrix (case_series c))
+  | KPromVector => Some (doc_prom_vector (case_series c))
+  | KPromScalar => Some (doc_prom_scalar (case_scalar c))
+  | KPromError => Some (doc_prom_error (case_msg c))
   end.
 
 Definition model_mismatch (c : case) : bool := negb (String.eqb (model_bytes c) (c_out c)).
@@ -808,7 +876,7 @@ Definition spec_violations (cs : list case) : list Z := map c_id (filter spec_vi
 Definition unreadable (cs : list case) : list Z := map c_id (filter unreadable_case cs).
 
 (* decoding of a transported case:
-   id | kind | #labelsets { #pairs { k | v } } | #batches { #entries { fp | labelset | ts | err | msg | tsf | val } } | #items { item } | #order { fp } | out *)
+   id | kind | #labelsets { #pairs { k | v } } | #batches { labelset | #entries { fp | labelset | ts | err | msg | tsf | val } } | #items { item } | #order { fp } | out *)
 Fixpoint take_pairs (n : nat) (fs : list string) : option (list (string * string) * list string) :=
   match n with
   | O => Some ([], fs)
@@ -852,18 +920,18 @@ Fixpoint take_entries (ls : list (list (string * string))) (n : nat) (fs : list 
            end
   end.
 Fixpoint take_batches (ls : list (list (string * string))) (n : nat) (fs : list string)
-  : option (list (list entry) * list string) :=
+  : option (list (list entry * list (string * string)) * list string) :=
   match n with
   | O => Some ([], fs)
   | S n => match fs with
-           | c :: r => match take_entries ls (dec_nat c) r with
-                       | Some (b, r') => match take_batches ls n r' with
-                                         | Some (l, r'') => Some (b :: l, r'')
-                                         | None => None
-                                         end
-                       | None => None
-                       end
-           | [] => None
+           | li :: c :: r => match take_entries ls (dec_nat c) r with
+                             | Some (b, r') => match take_batches ls n r' with
+                                               | Some (l, r'') => Some ((b, nth (dec_nat li) ls []) :: l, r'')
+                                               | None => None
+                                               end
+                             | None => None
+                             end
+           | _ => None
            end
   end.
 Fixpoint take_items (n : nat) (fs : list string) : option (list string * list string) :=
@@ -882,7 +950,11 @@ Definition dec_kind (s : string) : option enc_kind :=
   else if String.eqb s "tags" then Some KTags
   else if String.eqb s "tagvalues" then Some KTagValues
   else if String.eqb s "labels" then Some KLabels
-  else if String.eqb s "series" then Some KSeries else None.
+  else if String.eqb s "series" then Some KSeries
+  else if String.eqb s "prommatrix" then Some KPromMatrix
+  else if String.eqb s "promvector" then Some KPromVector
+  else if String.eqb s "promscalar" then Some KPromScalar
+  else if String.eqb s "promerror" then Some KPromError else None.
 Definition decode_case (x : lbytes) : option case :=
   match split_bar (string_of_list_byte (unLB x)) (fun y => y) with
   | id :: kind :: nls :: r =>
@@ -893,7 +965,7 @@ Definition decode_case (x : lbytes) : option case :=
         match take_items (dec_nat ni) r'' with
         | Some (its, no :: r3) =>
           match take_items (dec_nat no) r3 with
-          | Some (ord, [o]) => Some {| c_id := dec_Z id; c_kind := k; c_batches := bs; c_items := its;
+          | Some (ord, [o]) => Some {| c_id := dec_Z id; c_kind := k; c_batches := map fst bs; c_blbls := map snd bs; c_items := its;
                                        c_order := map (fun x => dec_N x 0) ord; c_out := unesc o |}
           | _ => None
           end
